@@ -79,6 +79,10 @@ def _corr_scene(rng, family):
         opts['covariance_norm'] = 'eigenvalue' if rng.random() < 0.7 else ['trace', False][int(rng.integers(2))]
         opts['affiliation_eps'] = 0.0          # the Em model has no posterior clipping (public predict() has none either)
     i = int(rng.integers(1, 20))               # code iterate i is stepped to i + 1 <= 20
+    if family == 'cwmm' and rng.random() < 0.5:
+        # from the second iterate on the posteriors of a separable scene are so hard that the Watson concentration sits
+        # at max_concentration (guard); the first step from a blurred start is where guard-free cWMM cases exist
+        i = 1
     return dict(family=family, F=F, K=K, D=D, N=N, wca=wca, y=y, init=init, opts=opts, i=i, saliency='none',
                 labels=labels, level=level, maxcos=maxcos, blur=bkind, gains=gain_kind)
 
